@@ -731,10 +731,18 @@ func CreateResponse(issuer, responderCert *x509.Certificate, template Response, 
 	case Unknown:
 		innerResponse.Unknown = true
 	case Revoked:
+		// A revokedInfo that is entirely zero is dropped by asn1.Marshal as an
+		// absent optional field, which leaves the SingleResponse without any
+		// certStatus.
+		if template.RevokedAt.IsZero() {
+			return nil, errors.New("ocsp: template.RevokedAt must be set when template.Status is Revoked")
+		}
 		innerResponse.Revoked = revokedInfo{
 			RevocationTime: template.RevokedAt.UTC(),
 			Reason:         asn1.Enumerated(template.RevocationReason),
 		}
+	default:
+		return nil, errors.New("ocsp: template.Status must be one of Good, Revoked and Unknown")
 	}
 
 	rawResponderID := asn1.RawValue{
